@@ -151,6 +151,13 @@ def ut_scenarios(tier, seed):
     if not res.ok:
         raise ToolError(f"UseTree.tla: {res.violation}")
     scs = core.printed_json(res, "UT")
+    if tier == "thorough":
+        # single trees with lists of up to three elements (normalize / flatten / unique alone)
+        res2 = core.tlc("UseTree", "UseTree_single.cfg", workers=8, timeout=3000)
+        if not res2.ok:
+            raise ToolError(f"UseTree.tla (single): {res2.violation}")
+        scs += core.printed_json(res2, "UT")
+        res.distinct += res2.distinct
     if tier == "quick":
         scs = [s for k, s in enumerate(scs)
                if not s["ok"] or core.fnv(json.dumps(s["items"]).encode()) % 8 == seed % 8]
